@@ -26,7 +26,9 @@ META = {
               'zero/non-zero) are enumerated by forking; NBT fields take a '
               'concrete sample tree; user-defined packets: seeded random '
               'field lists (20 quick / 120 thorough), each checked for all '
-              'field values; W=96',
+              'field values; user extensions of 5 library packets by one '
+              'field, used before or after their parent (symbolic order), '
+              'over all supported versions; W=96',
     'outside': 'longer strings/arrays; NBT contents (pynbt runs natively on '
                'concrete data); SoundEffect pitch before protocol 204 is '
                'compared within one quantum (lossy /63.5 scaling)',
